@@ -796,6 +796,13 @@ fn read_phase(cx: &mut Ctx<'_>, rust: &Db, cdb: &CDb, stmts: &[Stmt]) {
             continue;
         }
         let pj = params_json(&s.params);
+        if let Err(e) = &r
+            && e.msg.contains("kind=Timeout")
+        {
+            // the default soft timeout tripped on an overloaded machine: says nothing about parity
+            cx.out.inconclusive("rust-side-hit-the-default-timeout");
+            continue;
+        }
         // ---- ndb_query
         if cx.announce("ndb_query", s) {
             let c = cdb.query(&s.text, pj.as_deref());
@@ -826,6 +833,9 @@ fn read_phase(cx: &mut Ctx<'_>, rust: &Db, cdb: &CDb, stmts: &[Stmt]) {
                     } else {
                         cx.judge_errors("ndb_query", s, re, ce);
                     }
+                }
+                (Ok(_), Err(ce)) if ce.message.contains("kind=Timeout") => {
+                    cx.out.inconclusive("c-side-hit-the-default-timeout");
                 }
                 (Ok(rows), Err(ce)) => {
                     cx.violation(
@@ -881,6 +891,9 @@ fn read_phase(cx: &mut Ctx<'_>, rust: &Db, cdb: &CDb, stmts: &[Stmt]) {
                     } else {
                         cx.violation(format!("C34|entry-point|ndb_prepare_read-refuses-read|{}", s.family), format!("ndb_prepare_read refused the read statement `{}`", s.text), s, json!({"c_error": ce.message}));
                     }
+                }
+                (Ok(_), Err(ce)) if ce.message.contains("kind=Timeout") => {
+                    cx.out.inconclusive("c-side-hit-the-default-timeout");
                 }
                 (Ok(rows), Err(ce)) => {
                     cx.violation(format!("C34|outcome-differs|statement-api-fails|{}|{}", s.family, normalise_msg(&ce.message).chars().take(50).collect::<String>()), format!("the Rust API returns {} rows for `{}`, the statement API fails: {}", rows.len(), s.text, ce.message), s, json!({"c_error": ce.message}));
@@ -1042,6 +1055,11 @@ fn write_phase(cx: &mut Ctx<'_>, rust: &Db, cdb: &CDb, stmts: &[Stmt], mode: &st
 }
 
 fn judge_write(cx: &mut Ctx<'_>, entry: &str, s: &Stmt, r: &Result<u32, RErr>, c: &Result<Option<u32>, CErr>) {
+    let timed_out = |m: &str| m.contains("kind=Timeout");
+    if r.as_ref().err().is_some_and(|e| timed_out(&e.msg)) || c.as_ref().err().is_some_and(|e| timed_out(&e.message)) {
+        cx.out.inconclusive("a-side-hit-the-default-timeout");
+        return;
+    }
     match (r, c) {
         (Ok(n), Ok(m)) => {
             cx.out.count("writes_succeeding_on_both_sides", 1);
